@@ -334,7 +334,7 @@ CLASSES = {  # class -> list of parameter values (dyadic where possible)
     "NegativelyComonotoneOperator": ["1/8"], "NonexpansiveOperator": [], "SkewSymmetricLinearOperator": ["2"],
     "StronglyMonotoneOperator": ["1/4"], "SymmetricLinearOperator": ["1/4", "2"],
 }
-W = ["1", "2", "-1", "1/2", "4", "-2", "0", "1/4", "-1/2", "3", "1/3"]
+W = ["1", "2", "-1", "1/2", "4", "-2", "0", "1/4", "-1/2", "8", "1/8"]      # powers of two: products AND quotients stay exact in floating point (a 1e-17 residue of 1/3 or of 1/(3/4) changes which terms exist)
 
 
 class Prog:
@@ -445,7 +445,7 @@ def gen_collect(seed):
     return p.lines
 
 
-G = ["1", "1/2", "2", "1/4", "3", "-1", "1/3"]
+G = ["1", "1/2", "2", "1/4", "4", "-1", "1/8"]
 def gen_steps(seed):
     rnd = random.Random(seed); p = Prog(rnd)
     for _ in range(2): p.point()
@@ -619,6 +619,10 @@ def same(model, impl, strict=True):
     the printing of -0/0); otherwise rounding happened in the implementation and the comparison is
     tolerant (relative 1e-9, coefficients below 1e-9 of the largest one count as absent)."""
     if model == impl: return True
+    mo, io_ = re.fullmatch(r"ok (-?\d+(?:/\d+)?)", model), re.fullmatch(r"ok (-?\d+(?:/\d+)?)", impl)
+    if mo and io_:
+        x, y = float(Fr(mo.group(1))), float(Fr(io_.group(1)))
+        return abs(x - y) <= 1e-9 * max(1.0, abs(x), abs(y))
     mc = [Fr(v) for _, v in _PAIR.findall(model)]
     if strict and mc and all(_exact_double(c) for c in mc):
         strip = lambda t: _PAIR.sub(lambda m: m.group(1) + ":" + str(Fr(m.group(2))), t)
@@ -626,7 +630,10 @@ def same(model, impl, strict=True):
     def parse(t):
         keys = {}
         for k, v in _PAIR.findall(t): keys[k] = keys.get(k, 0.0) + float(Fr(v))
-        return keys, _PAIR.sub("", t)
+        rest = _PAIR.sub("", t)
+        rest = re.sub(r"aij\(\w+,", "aij(", rest)          # `aij(_,{})` (no linear part) vs `aij(5,{k:1e-17})`
+        rest = re.sub(r"[{},;]", "", rest)                   # separators left by removed / residue entries
+        return keys, rest
     (a, ra), (b, rb) = parse(model), parse(impl)
     if not a and not b: return norm(model) == norm(impl)
     if ra != rb: return norm(model) == norm(impl)
@@ -661,7 +668,14 @@ def run_programs(progs):
     r = subprocess.run([DRIVER], input="\n".join(all_lines) + "\n", capture_output=True, text=True)
     out = r.stdout.splitlines()
     n = min(len(out), len(exp))
-    bad = [i for i in range(n) if not same(out[i], exp[i], strict.get(idx[i], False))]
+    # once the exact model has produced a coefficient that is not a double, the implementation has rounded:
+    # from there on this program is compared with tolerance (later coefficients may be doubles again without
+    # the float computation having been exact)
+    tainted = set(); bad = []
+    for i in range(n):
+        sd = idx[i]
+        if not same(out[i], exp[i], strict.get(sd, False) and sd not in tainted): bad.append(i)
+        if sd not in tainted and any(not _exact_double(Fr(v)) for _, v in _PAIR.findall(out[i])): tainted.add(sd)
     if len(out) != len(exp):
         bad.append(n - 1 if n else 0)
     exact = sum(1 for i in range(n) if out[i] == exp[i])
